@@ -50,7 +50,7 @@ fn setup_stub(fault: &Fault) {
     match fault {
         Fault::None => {}
         Fault::PutFailsOnce { pat, attempt } => g.put_faults.push((pat.clone(), vec![*attempt], false)),
-        Fault::PutFailsAlways { pat } => g.put_faults.push((pat.clone(), vec![], true)),
+        Fault::PutFailsAlways { pat } => g.put_faults.push((pat.split('#').next().unwrap_or("").to_string(), vec![], true)),
         Fault::GetFailsOnce { pat } => g.get_fail_once.push(pat.clone()),
         Fault::PutFailsFirst { pat, n } => g.put_faults.push((pat.clone(), (1..=*n).collect(), false)),
         Fault::GetFailsAlways { pat } => g.get_fail_always.push(pat.clone()),
@@ -70,8 +70,25 @@ fn execute_put_always(pat: String) -> FaultOutcome {
         Some(x) => x,
         None => return out,
     };
+    // (`#after-removal`: the uploads start failing only after a first snapshot succeeded and `ka` was removed -- the
+    //  removal must reach the store with the next snapshot that completes, however many failed in between)
+    let after_removal = pat.ends_with("#after-removal");
+    let pat = pat.split('#').next().unwrap_or("").to_string();
     admin.exec("set ka v1");
     admin.exec("set kb v2");
+    if after_removal {
+        let saved: Vec<(String, Vec<u32>, bool)> = {
+            let s = s3stub::store();
+            let mut g = s.lock().unwrap();
+            std::mem::take(&mut g.put_faults)
+        };
+        admin.exec("snapshot false");
+        w.declutter_kick(0);
+        sleep_ms(200);
+        admin.exec("remove ka");
+        let s = s3stub::store();
+        s.lock().unwrap().put_faults = saved;
+    }
     out.setup_ok = true;
     let errors_before = with(|k| k.stats.probes.get("s3_upload_error").copied().unwrap_or(0));
     admin.exec("snapshot false");
@@ -111,7 +128,7 @@ fn execute_put_always(pat: String) -> FaultOutcome {
         let g = s.lock().unwrap();
         g.objects.keys().any(|k| k.contains("d/") && !k.contains("metadata"))
     };
-    if !uploaded && !d.is_empty() && d.iter().all(|(_, _, s)| s == "Ok") {
+    if !after_removal && !uploaded && !d.is_empty() && d.iter().all(|(_, _, s)| s == "Ok") {
         out.violations.push(Violation::new(
             "marked-clean-after-failed-upload",
             format!("{}:put-always-fails", st),
@@ -150,6 +167,7 @@ fn execute_put_always(pat: String) -> FaultOutcome {
     admin.exec("snapshot false");
     w.declutter_kick(0);
     sleep_ms(200);
+    // (a tombstone still in memory means that no snapshot has completed since the removal: nothing is concluded then)
     let clean = states(&dbs).iter().all(|(_, _, s)| s == "Ok");
     if clean {
         w.kill(0);
@@ -160,11 +178,11 @@ fn execute_put_always(pat: String) -> FaultOutcome {
             return out;
         }
         if let Some(dbs2) = w.dbs(0) {
-            let got: Vec<(String, String)> = states(&dbs2).into_iter().map(|(k, v, _)| (k, v)).collect();
-            let want = vec![("ka".to_string(), "v1".to_string()), ("kb".to_string(), "v2".to_string())];
+            let got: Vec<(String, String)> = states(&dbs2).into_iter().filter(|(_, _, s)| s != "Deleted").map(|(k, v, _)| (k, v)).collect();
+            let want = if after_removal { vec![("kb".to_string(), "v2".to_string())] } else { vec![("ka".to_string(), "v1".to_string()), ("kb".to_string(), "v2".to_string())] };
             if got != want {
                 out.violations.push(Violation::new(
-                    "lost-after-recovered-upload",
+                    if after_removal { "resurrected-after-recovered-upload" } else { "lost-after-recovered-upload" },
                     format!("{}:put-always-fails", st),
                     format!("first snapshot failed (reported={}), the second one completed with every key clean, after the restart database d holds {:?}, expected {:?}", reported, got, want),
                 ));
@@ -219,7 +237,7 @@ impl Property for C18 {
                 let pat = pats[rng.below(pats.len() as u64) as usize].to_string();
                 let fault = match scenario {
                     "put-fails-once" => Fault::PutFailsOnce { pat, attempt: rng.range(1, 3) as u32 },
-                    "put-fails-always" => Fault::PutFailsAlways { pat: if rng.chance(1, 2) { "d/".into() } else { "nun.metadata".into() } },
+                    "put-fails-always" => Fault::PutFailsAlways { pat: ["d/", "nun.metadata", "d/#after-removal"][rng.below(3) as usize].to_string() },
                     "get-fails-once" => Fault::GetFailsOnce { pat },
                     "put-fails-first" => Fault::PutFailsFirst { pat, n: rng.range(3, 5) as u32 },
                     "get-fails-always" => Fault::GetFailsAlways { pat: ["nun.metadata", ".nun", "nun.keys", "/"][rng.below(4) as usize].to_string() },
